@@ -88,6 +88,28 @@ func matrixCases() []*Case {
 			}
 		}
 	}
+	// device-attest-01: a genuine attestation by the requester for the owner's challenge, under the
+	// owner's authorization and under every other owner's (the D15 request)
+	for req := 0; req <= 2; req++ {
+		for own := 0; own <= 2; own++ {
+			for azOwn := -1; azOwn <= 2; azOwn++ {
+				k := base("challenge", own/2, req, own, "device")
+				k.AzOwn = azOwn
+				out = append(out, k)
+			}
+		}
+	}
+	// … and the owner answering with a payload that is not JSON / JSON without an attestation, under
+	// its own and under another owner's authorization (the ownership test comes first)
+	for own := 0; own <= 2; own++ {
+		for _, pl := range []string{"empty", "emptyjson", "garbage"} {
+			for _, azOwn := range []int{-1, (own + 1) % 3} {
+				k := base("challenge", own/2, own, own, "device")
+				k.Payload, k.AzOwn = pl, azOwn
+				out = append(out, k)
+			}
+		}
+	}
 	// forged certificate (victim's serial, forger's key): by the forger's embedded key, by any
 	// account through kid, and signed with an unrelated key
 	for req := 0; req <= 4; req++ {
@@ -105,6 +127,23 @@ func matrixCases() []*Case {
 	for _, route := range allRoutes {
 		for req := 0; req <= 2; req++ {
 			k := base(route, req/2, req, req, "valid")
+			k.ProvSwap = true
+			out = append(out, k)
+		}
+	}
+	// accounts as older versions stored them (6: no location, 7: no provisioner id), under their own
+	// and the other provisioner, with the kid they were given and with the other provisioner's prefix,
+	// and after the provisioner was re-created under the same name
+	for _, route := range allRoutes {
+		for _, req := range []int{6, 7} {
+			for prov := 0; prov < 2; prov++ {
+				for _, kid := range []string{"loc", "otherprov"} {
+					k := base(route, prov, req, req, "valid")
+					k.J.Kid = kid
+					out = append(out, k)
+				}
+			}
+			k := base(route, 0, req, req, "valid")
 			k.ProvSwap = true
 			out = append(out, k)
 		}
@@ -131,8 +170,11 @@ func genMatrix(r *c.Rng) *Case {
 		k.Prov = 2
 	}
 	if r.Chance(1, 10) {
-		k.Req = 5
-		k.Own = 5
+		k.Req = c.Pick(r, []int{5, 5, 6, 7})
+		k.Own = k.Req
+		if k.Req >= 6 && r.Chance(1, 2) {
+			k.J.Kid = c.Pick(r, []string{"otherprov", "noprefix", "garbage"})
+		}
 	}
 	k.Payload = c.Pick(r, []string{"valid", "valid", "valid", "empty", "emptyjson", "garbage", "onlyexisting"})
 	if k.Req == 5 && route == "account" && r.Chance(1, 2) {
@@ -140,6 +182,9 @@ func genMatrix(r *c.Rng) *Case {
 	}
 	if route == "challenge" && r.Chance(1, 3) {
 		k.AzOwn = r.Intn(3)
+	}
+	if route == "challenge" && r.Chance(1, 3) {
+		k.Which = "device"
 	}
 	if route == "revoke" {
 		switch r.Intn(4) {
